@@ -41,7 +41,7 @@ CHECKS.update({
             "DESIGN.md §4 C16"),
     "C18": ("model_checking", "E2",
             "explicit-state BFS over subscribe/unsubscribe/disconnect/presence-request histories of three clients on a real broker, FIFO barrier on the real presence queue",
-            "Every history to depth 3 (quick) / 5 (thorough) over 14 operations is replayed on a real broker; after every operation the watcher's inbox must hold exactly the expected subscribe/unsubscribe notifications (connection id and username checked), and in every state presence status requests for three channels must list exactly the connections the C02 reference says would receive a publish. A second search has one connection juggle three xor-colliding sub-channels of a watched channel, a third uses channels spelled like the broker's reserved words (presence/..., query/...).",
+            "Every history to depth 3 (quick) / 5 (thorough) over 14 operations is replayed on a real broker; after every operation the watcher's inbox must hold exactly the expected subscribe/unsubscribe notifications (connection id and username checked), and in every state presence status requests for three channels must list exactly the connections the C02 reference says would receive a publish. A second search has one connection juggle three xor-colliding sub-channels of a watched channel, a third uses channels spelled like the broker's reserved words (presence/..., query/...); a plain status poll by the watcher is an alphabet letter (it must change nothing).",
             "single broker (cluster survey returns nothing); notifications awaited through a no-op pushed through the real queue.",
             "DESIGN.md §4 C18"),
 })
@@ -54,7 +54,7 @@ CHECKS.update({
             "DESIGN.md §4 C10"),
     "C11": ("exploration", "E3",
             "bounded-exhaustive enumeration of key-generation and link-extension requests through a real broker connection, decrypted results and behavioural grants compared with a reference",
-            "Every (parent kind incl. all 64 extendable masks, crafted expired/foreign/garbage parents) x 142 type strings x 3 ttls x 9 channels request goes through the real emitter/keygen/ handler; the decrypted key is checked clause by clause (no master bit, permissions within request and parent, contract/signature/master copied, expiry) and its grants through the real Authorize are compared in both directions with a string-level reference over 125 probe channels; extendable keys are tried for publish, subscribe, unsubscribe, presence and link auto-subscribe. Requests that omit every non-empty subset of {key, channel, type, ttl} are sent right after a complete successful request (what is not sent is not requested). The first request each parent key was granted is repeated after all other requests with that key: same answer.",
+            "Every (parent kind incl. all 64 extendable masks, crafted expired/foreign/garbage parents) x 142 type strings x 3 ttls x 9 channels request goes through the real emitter/keygen/ handler; the decrypted key is checked clause by clause (no master bit, permissions within request and parent, contract/signature/master copied, expiry) and its grants through the real Authorize are compared in both directions with a string-level reference over 125 probe channels; extendable keys are tried for publish, subscribe, unsubscribe, presence and link auto-subscribe. Requests that omit every non-empty subset of {key, channel, type, ttl} are sent right after a complete successful request (what is not sent is not requested); channels include '.' and '..' levels. The first request each parent key was granted is repeated after all other requests with that key: same answer.",
             "one license version (v3); wildcard requests against keys are C03's business.",
             "DESIGN.md §4 C11"),
 })
@@ -70,7 +70,7 @@ CHECKS.update({
 CHECKS.update({
     "C13": ("model_checking", "E3+E2",
             "bounded-exhaustive enumeration of (local entry, incoming entry) time pairs on two keys for three backends + exhaustive enumeration of enqueue sequences on real mesh gossip senders fed by a real Swarm, each run under a one-thread controlled scheduler (deadlock detection)",
-            "(a) all 65 536 combinations of add/remove times {absent,1,2,3} of local and incoming entries on two keys for Volatile<-Volatile, Durable<-Volatile and State.Merge: the delta must hold exactly the strictly newer components, be empty/nil iff nothing changed, and the local state must be the pointwise maximum. (b) every sequence of <=2 (quick) / <=3 (thorough) Broadcast/Send calls on one or two real gossipSender objects with payloads produced by a real Swarm (Notify operations, an OnGossip delta, the live Gossip() state, the same object on both links): after draining, every link must have sent at least the union of what was queued; panics and deadlocks are violations. (c) two payloads merged into one durable state at the same time under the controlled scheduler (<= 2/3 preemptions): what each relayed delta claims must be held by the state, nothing new withheld.",
+            "(a) all 65 536 combinations of add/remove times {absent,1,2,3} of local and incoming entries on two keys for Volatile<-Volatile, Durable<-Volatile and State.Merge: the delta must hold exactly the strictly newer components, be empty/nil iff nothing changed, and the local state must be the pointwise maximum. (b) every sequence of <=2 (quick) / <=3 (thorough) Broadcast/Send calls on one or two real gossipSender objects with payloads produced by a real Swarm (Notify operations, an OnGossip delta, the live Gossip() state, the same object on both links): after draining, every link must have sent at least the union of what was queued; panics and deadlocks are violations. (c) two payloads merged into one durable state at the same time under the controlled scheduler (<= 2/3 preemptions): what each relayed delta claims must be held by the state, nothing new withheld; a 50000-entry delta coalesced with a new update must still carry the update.",
             "senders are real mesh gossipSender objects without their goroutine; picking order as in mesh (gossip bucket first).",
             "DESIGN.md §4 C13"),
 })
@@ -81,9 +81,9 @@ CHECKS.update({
             "169 targets x 681 requests x 6 operations with mask 0xFE on all three licenses plus all 256 masks x 3 expiries on representative pairs (quick), the full product with all masks (thorough); foreign-contract/signature/master keys crafted with the real cipher, undecryptable strings, banned keys and banned keys presented in another spelling (standard base64 alphabet); every disagreement is shrunk to a minimal shape-based signature. Two simultaneous requests (channel parsing, key decryption, target validation) are explored under the controlled scheduler with <= 1 / 2 preemptions: each must be judged as when it is alone. A key's verdict table is compared before and after the key has been used for link extensions through the real keygen (a key is not altered by use); foreign-key kinds are also run on a license whose contract signature is 0. A real broker with the HTTP contract provider follows a loopback contract service that switches the contract between allowed and refused.",
             "grammar: 3 literals, '+', '#', depth <= 3 targets / <= 4 requests; single-contract provider.",
             "DESIGN.md §4 C03"),
-    "C12": ("exploration", "E3",
-            "bounded-exhaustive enumeration of key mutants (every single-character substitution, every XOR mask on every decoded byte, every pair of bit flips, every 8-byte block swap within and between keys) with grants measured through the real Authorize",
-            "For 40 issued keys per license version (5 masks x 4 targets x 2 expiries) every mutant of the listed edit families is presented to the real broker; grants(mutant) over 27-43 probe channels x 6 operations (+ use as master key) must be a subset of grants(original) (union of donors for cross-key swaps). Donors for cross-key swaps: crafted keys with an equal salt, crafted keys with another salt, and keys minted by the real keygen (the broker's own salts). Licenses: versions 1-3 plus a version-1 license whose contract signature is 0.",
+    "C12": ("exploration", "E3+E1",
+            "bounded-exhaustive enumeration of key mutants (every single-character substitution, every XOR mask on every decoded byte, every pair of bit flips, every 8-byte block swap within and between keys) with grants measured through the real Authorize + preemption-bounded exhaustive schedule exploration of an altered key judged next to a valid one",
+            "For 40 issued keys per license version (5 masks x 4 targets x 2 expiries) every mutant of the listed edit families is presented to the real broker; grants(mutant) over 27-43 probe channels x 6 operations (+ use as master key) must be a subset of grants(original) (union of donors for cross-key swaps). Donors for cross-key swaps: crafted keys with an equal salt, crafted keys with another salt, and keys minted by the real keygen (the broker's own salts). Licenses: versions 1-3 plus a version-1 license whose contract signature is 0. An altered key judged at the same time as a valid, more powerful key of the same channel (controlled scheduler, <= 1/2 preemptions, through keygen.DecryptKey) must be refused as when it is judged alone.",
             "edits combining three or more changes are outside the bound; cryptographic strength itself is not a model-checking question. The structural malleability of the 32-character key format is recorded as a known finding.",
             "DESIGN.md §4 C12"),
     "C20": ("exploration", "E3+E1",
@@ -104,11 +104,11 @@ CHECKS.update({
 CHECKS.update({
     "C04": ("model_checking", "E2+E1",
             "explicit-state BFS over add/del/merge histories on 3 replicas of the real CRDT (volatile, durable, event.State), ghost-set oracle on every reached state, process-level workers + preemption-bounded exhaustive schedule exploration of concurrent merges into one replica",
-            "Every history of add/del with logical clocks {1,2,3} (ties and out-of-order included) and merges (clone, encode/decode, forwarded delta) among three replicas up to the stated depth is replayed on the real Volatile/Durable/State implementations; in every state every replica's (add, remove) times read through Get/Has/Range/Count (and the State accessors) must equal the pointwise maximum over the set of primitive updates it has transitively received, and Has must equal 'added and latest add not older than latest remove'. Two merges and a local update arriving at one volatile replica at the same time are explored under the controlled scheduler (<= 2 / 3 preemptions): the replica must end at the pointwise maximum; the same on a durable replica (yields between the statements of its methods, buntdb transactions atomic), with the entry unknown, known, or served from the read cache. A full snapshot of a 50000-entry durable state (what the encoder sends at most) must be accepted and reproduce every entry.",
+            "Every history of add/del with logical clocks {1,2,3} (ties and out-of-order included) and merges (clone, encode/decode, forwarded delta) among three replicas up to the stated depth is replayed on the real Volatile/Durable/State implementations; in every state every replica's (add, remove) times read through Get/Has/Range/Count (and the State accessors) must equal the pointwise maximum over the set of primitive updates it has transitively received, and Has must equal 'added and latest add not older than latest remove'. Two merges and a local update arriving at one volatile replica at the same time are explored under the controlled scheduler (<= 2 / 3 preemptions): the replica must end at the pointwise maximum; the same on a durable replica (yields between the statements of its methods, buntdb transactions atomic), with the entry unknown, known, or served from the read cache. A full snapshot of a 50000-entry durable state (what the encoder sends at most) must be accepted and reproduce every entry, and so must a volatile payload of 50001 entries.",
             "states are merged on per-key maxima of the ghost sets + replica symmetry (cross-checked against the unreduced key); values after the 16-byte header are not compared.",
             "DESIGN.md §4 C04"),
-    "C05": ("model_checking", "E2",
-            "explicit-state BFS over client activity x gossip transport schedules on 2-3 real brokers wired through real mesh gossipSender objects (one per directed link), states deduplicated by a canonical dump of every broker's replicated state, peer counters, routing entries and queued payloads; quiescence closure + routing oracle in every state",
+    "C05": ("model_checking", "E2+E1",
+            "explicit-state BFS over client activity x gossip transport schedules on 2-3 real brokers wired through real mesh gossipSender objects (one per directed link), states deduplicated by a canonical dump of every broker's replicated state, peer counters, routing entries and queued payloads; quiescence closure + routing oracle in every state + preemption-bounded exhaustive schedule exploration of two simultaneous first deliveries",
             "Events: subscribe/unsubscribe/disconnect of a client on any broker (budget 3-4), delivery of one queued payload on one link (gossip bucket first, explorer chooses the broadcast source), periodic full-state gossip, link down/up, peer garbage collection. In every reached state all links are brought up and full-state rounds are run until nothing changes; then every broker must hold a routing entry for a peer iff that peer has a live local subscriber, and a publish on every broker must reach every subscriber exactly once. Configurations: quick = 2 brokers on one channel + 2 brokers with two xor-colliding channels on one side (4 client operations); thorough adds 4 client operations, faults, 3 brokers (mesh and line) and two clients per broker. A scheduled part delivers a new peer's first two subscriptions on two connections at once (yields in the member list, <= 2/3 preemptions), then lets the two clients leave one by one.",
             "deliveries atomic per broker in the searches; mesh routing transcribed for <= 3 brokers; one logical clock; peer liveness timeouts never elapse.",
             "DESIGN.md §4 C05"),
@@ -172,7 +172,7 @@ def main():
             "add_only": True,
         },
         "engines": [
-            {"name": "E1", "path": "/verif/engine/sched", "serves_properties": ["C01", "C03", "C04", "C10", "C13", "C16", "C17", "C19", "C20"], "kind_free_text": "controlled scheduler over sync/atomic shims + statement-level yields, iterative preemption-bounded DFS, sharded over processes"},
+            {"name": "E1", "path": "/verif/engine/sched", "serves_properties": ["C01", "C03", "C04", "C05", "C10", "C12", "C13", "C16", "C17", "C19", "C20"], "kind_free_text": "controlled scheduler over sync/atomic shims + statement-level yields, iterative preemption-bounded DFS, sharded over processes"},
             {"name": "E2", "path": "/verif/engine/xstate", "serves_properties": ["C01", "C02", "C04", "C05", "C07", "C13", "C14", "C18"], "kind_free_text": "explicit-state BFS over the real transition functions, states deduplicated by canonical dump of implementation state"},
             {"name": "E3", "path": "/verif/harness", "serves_properties": ["C03", "C06", "C11", "C12", "C16", "C17", "C19", "C20"], "kind_free_text": "bounded-exhaustive enumeration of inputs/configurations against a reference"},
             {"name": "E4", "path": "/verif/harness", "serves_properties": ["C08", "C09", "C15"], "kind_free_text": "cut-point / crash-point / deviation enumeration in isolated worker processes"},
